@@ -80,7 +80,7 @@ IPV4_MAXINT = 4294967295
 # Maximum ipv6 as an integer
 IPV6_MAXINT = 340282366920938463463374607431768211455
 IPV4_MAXSTR_LEN = 31  # String length with periods, slash, and netmask
-IPV6_MAXSTR_LEN = 39 + 4  # String length with colons, slash and masklen
+IPV6_MAXSTR_LEN = 45 + 4  # String length with colons, an embedded dotted quad, slash and masklen
 
 IPV4_MAX_PREFIXLEN = 32
 IPV6_MAX_PREFIXLEN = 128
@@ -1794,9 +1794,6 @@ class IPv6Obj(object):
         if v6input is None:
             self.empty = True
         elif isinstance(v6input, str):
-            if len(v6input) > IPV6_MAXSTR_LEN:
-                raise RequirementFailure()
-
             tmp = re.split(r"\s+", v6input.strip())
             if len(tmp) == 2:
                 v6input = "/".join(tmp)
@@ -1804,6 +1801,9 @@ class IPv6Obj(object):
                 v6input = tmp[0]
             else:
                 raise NotImplementedError(v6input.strip())
+
+            if len(v6input) > IPV6_MAXSTR_LEN:
+                raise RequirementFailure()
 
             v6_str_rgx = _RGX_IPV6ADDR.search(v6input.strip())
             # Example 'v6_groupdict'
